@@ -83,7 +83,7 @@ def ofSchema (j : Json) : Except String Schema := do
     pure ({ name, fields } : TableS))
 
 /-- one step of a history on the suite -/
-def doStep (sch : Schema) (s : Suite) (j : Json) : Except String (Suite × Option Err) := do
+def doStep1 (sch : Schema) (s : Suite) (j : Json) : Except String (Suite × Option Err) := do
   let k ← getStr j "k"
   match k with
   | "commit" => pure (commitAll s)
@@ -150,7 +150,7 @@ def initCT (cd : Codec) (fields : List C09.Field) (t : T) : Except String CT := 
     | .error _ => throw "initial rows cannot be read back"
     | .ok ct => pure ct
 
-def doStepC (cd : Codec) (sch : Schema) (now : Nat) (cs : CSuite) (j : Json) :
+def doStepC1 (cd : Codec) (sch : Schema) (now : Nat) (cs : CSuite) (j : Json) :
     Except String ((CSuite × Nat) × Option Err) := do
   let k ← getStr j "k"
   match k with
@@ -205,12 +205,40 @@ def doStepC (cd : Codec) (sch : Schema) (now : Nat) (cs : CSuite) (j : Json) :
     let (cs', e) := stepAtC cs ti op
     pure ((cs', now), e)
 
+def doStepC (cd : Codec) (sch : Schema) (now : Nat) (cs : CSuite) (j : Json) :
+    Except String ((CSuite × Nat) × Option Err) := do
+  match getStr j "k" with
+  | .ok "fcommit" =>
+    let subs ← getArr j "ops"
+    let (cs0, e0) := reloadAllC cd cs
+    match e0 with
+    | some e => pure ((cs0, now), some e)
+    | none =>
+      let cs1 ← subs.foldlM (fun acc sub => do
+        let ((acc', _), _) ← doStepC1 cd sch now acc sub
+        pure acc') cs0
+      let (cs2, e) := commitAllC cd now cs1
+      pure ((cs2, now + cs1.length), e)
+  | _ => doStepC1 cd sch now cs j
+
 /-- what is on disk for a relation: the raw lines of the active file and which physical forms exist;
 `same` = the composed table's bookkeeping equals the abstract model's table -/
 def obsRel (ct : CT) (t : Option T) : Json :=
   Json.mkObj [("lines", jList cps ((ct.rel.read).getD [])),
               ("tx", Json.bool ct.rel.tx.isSome), ("gzf", Json.bool ct.rel.gz.isSome),
               ("same", Json.bool (decide (some ct.t = t)))]
+
+/-- one step; `fcommit`: a fresh TestSuite (it sees the committed relations) edits one table and commits,
+then this suite reloads / is re-opened (an operation that raises over there is skipped) -/
+def doStep (sch : Schema) (s : Suite) (j : Json) : Except String (Suite × Option Err) := do
+  match getStr j "k" with
+  | .ok "fcommit" =>
+    let subs ← getArr j "ops"
+    let s1 ← subs.foldlM (fun acc sub => do
+      let (acc', _) ← doStep1 sch acc sub
+      pure acc') (reloadAll s)
+    pure (commitAll s1)
+  | _ => doStep1 sch s j
 
 def intRange (lo hi : Int) : List Int :=
   (List.range (hi - lo + 1).toNat).map (fun (k : Nat) => lo + (k : Int))
